@@ -106,6 +106,30 @@ pub fn dump_observable<C: ObservableReasoning<Observation> + ?Sized>(c: &C, thr:
     )
 }
 
+/// the same members in a `VecDeque` whose ring buffer is wrapped (second half pushed to the back, first half to the
+/// front): the counting laws are claimed for every supported collection, and a deque is the one whose item
+/// enumeration is not a plain slice walk
+pub fn wrapped<T: Clone>(v: &[T]) -> std::collections::VecDeque<T> {
+    let n = v.len();
+    let mut d = std::collections::VecDeque::with_capacity(n + 3);
+    for x in &v[n / 2..] {
+        d.push_back(x.clone());
+    }
+    for x in v[..n / 2].iter().rev() {
+        d.push_front(x.clone());
+    }
+    d
+}
+
+/// answer of the `Vec`, or both answers when the wrapped deque disagrees with it
+fn both(vec_answer: String, deque_answer: String) -> String {
+    if vec_answer == deque_answer {
+        vec_answer
+    } else {
+        format!("container-differs:vec={vec_answer}:deque={deque_answer}")
+    }
+}
+
 #[derive(Default)]
 pub struct C18 {
     kind: String,
@@ -133,25 +157,28 @@ impl Interp for C18 {
         match (self.kind.as_str(), op) {
             ("assume", "verify") => {
                 let r = self.asm[p::<usize>(a[0])].verify_assumption(&[p::<i64>(a[1]) as f64]);
-                format!("{}|{}", b(r), dump_assumable(&self.asm))
+                format!("{}|{}", b(r), both(dump_assumable(&self.asm), dump_assumable(&wrapped(&self.asm))))
             }
             ("assume", "verifyall") => {
                 self.asm.verify_all_assumptions(&[p::<i64>(a[0]) as f64]);
-                format!("ok|{}", dump_assumable(&self.asm))
+                format!("ok|{}", both(dump_assumable(&self.asm), dump_assumable(&wrapped(&self.asm))))
             }
-            ("assume", "q") => dump_assumable(&self.asm),
+            ("assume", "q") => both(dump_assumable(&self.asm), dump_assumable(&wrapped(&self.asm))),
             ("infer", "push") => {
                 let id = self.inf.len() as u64;
                 self.inf.push(Inference::new(id, format!("q{id}"), fl(a[0]), fl(a[1]), fl(a[2]), fl(a[3])));
-                dump_inferable(&self.inf)
+                both(dump_inferable(&self.inf), dump_inferable(&wrapped(&self.inf)))
             }
-            ("infer", "q") => dump_inferable(&self.inf),
+            ("infer", "q") => both(dump_inferable(&self.inf), dump_inferable(&wrapped(&self.inf))),
             ("observe", "push") => {
                 let id = self.obs.len() as u64;
                 self.obs.push(Observation::new(id, fl(a[0]), fl(a[1])));
                 "ok".into()
             }
-            ("observe", "q") => dump_observable(&self.obs, fl(a[0]), fl(a[1])),
+            ("observe", "q") => both(
+                dump_observable(&self.obs, fl(a[0]), fl(a[1])),
+                dump_observable(&wrapped(&self.obs), fl(a[0]), fl(a[1])),
+            ),
             _ => "bad-op".into(),
         }
     }
